@@ -36,7 +36,7 @@ type c01l2obs struct {
 	Final   map[string]int // namespace -> final version of object o
 }
 
-func c01l2body(cfgName string, fails int, obs *c01l2obs) func(x *vrt.Exec) {
+func c01l2body(cfgName string, fails int, hold bool, obs *c01l2obs) func(x *vrt.Exec) {
 	return func(x *vrt.Exec) {
 		fx := newFixture([]fxHook{{Name: "h.sh", Config: c01l2configs[cfgName]}})
 		obs.fx = fx
@@ -63,11 +63,18 @@ func c01l2body(cfgName string, fails int, obs *c01l2obs) func(x *vrt.Exec) {
 			// the first execution of a grouped hook is its Synchronization
 			return cfgName == "group" && run.Seq == failed
 		}
+		// hold variant: the next execution after holdNext is set stays "running" until released
+		holdNext, held, released := false, 0, false
 		fx.Script = func(run *fxRun) fxOutcome {
 			if isSyncRun(run) && failed < fails {
 				failed++
 				run.Failed = true
 				return fxOutcome{Exit: 1}
+			}
+			if holdNext {
+				holdNext = false
+				held++
+				return fxOutcome{Block: func() bool { return released }}
 			}
 			return fxOutcome{}
 		}
@@ -114,6 +121,26 @@ func c01l2body(cfgName string, fails int, obs *c01l2obs) func(x *vrt.Exec) {
 					}
 				}
 				return true
+			}
+			if hold {
+				// a change that arrives while the hook is executing for an earlier change: the
+				// execution in progress took its view before it, so another execution must follow
+				vrt.WaitFor("operator-quiet", 10*time.Minute, quietNow)
+				holdNext = true
+				mutate("n1", 2)
+				if vrt.WaitFor("execution-in-progress", 10*time.Minute, func() bool { return held > 0 }) {
+					mutate("n1", 3)
+					mutate("n2", 2)
+					if vrt.Choose(2, "release-after-delivery") == 1 {
+						// the informers deliver while the hook is still running
+						vrt.WaitFor("delivered", 10*time.Minute, func() bool {
+							return !hub.Pending() && hub.Busy == 0 && len(fx.op.KubeEventsManager.Ch()) == 0
+						})
+					}
+				}
+				released = true
+				envDone = true
+				return
 			}
 			for _, ns := range []string{"n1", "n2"} { // the last change belongs to the second binding of the group
 				if vrt.Choose(2, "change-arrives-late") == 1 {
@@ -248,12 +275,14 @@ func TestVerifC01L2(t *testing.T) {
 	type sc struct {
 		cfg   string
 		fails int
+		hold  bool
 	}
 	var scs []sc
 	for _, c := range []string{"plain", "plain-queue", "group"} {
 		for f := 0; f <= vres.Pick(1, 2); f++ {
-			scs = append(scs, sc{c, f})
+			scs = append(scs, sc{c, f, false})
 		}
+		scs = append(scs, sc{c, 0, true})
 	}
 	for i, s := range scs {
 		if !r.Replaying() && i%shards != shard {
@@ -261,10 +290,13 @@ func TestVerifC01L2(t *testing.T) {
 		}
 		s := s
 		name := fmt.Sprintf("%s/sync-fails=%d", s.cfg, s.fails)
+		if s.hold {
+			name = s.cfg + "/change-during-execution"
+		}
 		var obs *c01l2obs
 		body := func(x *vrt.Exec) {
 			obs = &c01l2obs{}
-			c01l2body(s.cfg, s.fails, obs)(x)
+			c01l2body(s.cfg, s.fails, s.hold, obs)(x)
 		}
 		ex := &vrt.Explorer{Opts: vrt.Options{Bound: bound, MaxSteps: 300000, DelayBound: true}, Deadline: r.Deadline()}
 		ex.Check = func(x *vrt.Exec) {
